@@ -20,7 +20,7 @@ theorem dataV1V2_eq_desc (v : Version) (hf : v.family = .v1v2) (seqno : Nat) (pk
     encode env 10 desc_wallet_DataV1V2 (Val.list [.int seqno, .bytes (pkBytes pk)]) Builder.empty =
       .ok { bits := dataBitsSeq v seqno pk o, refs := [] } := by
   refine ⟨rfl, ?_⟩
-  simp [desc_wallet_DataV1V2, encode, encodeFields, encodeField, Val.list, Builder.writeUint, Builder.writeBits,
+  simp [desc_wallet_DataV1V2, encode, encodeFields, encodeField, Val.list, dictParts, keyWidth, Builder.writeUint, Builder.writeBits,
     Builder.writeBytes, Builder.empty, cellBits, bind, Outcome.bind, natToBits_mod64, dataBitsSeq, hf, pkBits]
 
 /-- `wallet.DataV3{Seqno, SubWalletId, PublicKey}` -/
@@ -29,35 +29,35 @@ theorem dataV3_eq_desc (v : Version) (hf : v.family = .v3) (seqno : Nat) (pk : L
     encode env 10 desc_wallet_DataV3 (Val.list [.int seqno, .int o.subDefault, .bytes (pkBytes pk)]) Builder.empty =
       .ok { bits := dataBitsSeq v seqno pk o, refs := [] } := by
   refine ⟨rfl, ?_⟩
-  simp [desc_wallet_DataV3, encode, encodeFields, encodeField, Val.list, Builder.writeUint, Builder.writeBits,
+  simp [desc_wallet_DataV3, encode, encodeFields, encodeField, Val.list, dictParts, keyWidth, Builder.writeUint, Builder.writeBits,
     Builder.writeBytes, Builder.empty, cellBits, bind, Outcome.bind, natToBits_mod64, dataBitsSeq, hf, pkBits]
 
 /-- `wallet.DataV4{Seqno, SubWalletId, PublicKey, PluginDict}` with the empty plugin dictionary -/
 theorem dataV4_eq_desc (v : Version) (hf : v.family = .v4) (seqno : Nat) (pk : List UInt8) (o : Opts) :
-    desc_wallet_DataV4 = (.struct (.cons "Seqno" .plain (.uint 32) (.cons "SubWalletId" .plain (.uint 32) (.cons "PublicKey" .plain (.bytes 32) (.cons "PluginDict" .plain (.dictE "tlb.HashmapE[tlb.Bits264,tlb.Any]") .nil))))) ∧
+    desc_wallet_DataV4 = (.struct (.cons "Seqno" .plain (.uint 32) (.cons "SubWalletId" .plain (.uint 32) (.cons "PublicKey" .plain (.bytes 32) (.cons "PluginDict" .plain (.dictE (.bytes 33) (.prim .any)) .nil))))) ∧
     encode env 10 desc_wallet_DataV4 (Val.list [.int seqno, .int o.subDefault, .bytes (pkBytes pk), .nil]) Builder.empty =
       .ok { bits := dataBitsSeq v seqno pk o, refs := [] } := by
   refine ⟨rfl, ?_⟩
-  simp [desc_wallet_DataV4, encode, encodeFields, encodeField, Val.list, Builder.writeUint, Builder.writeBits, Builder.writeBit,
+  simp [desc_wallet_DataV4, encode, encodeFields, encodeField, Val.list, dictParts, keyWidth, Builder.writeUint, Builder.writeBits, Builder.writeBit,
     Builder.writeBytes, Builder.empty, cellBits, bind, Outcome.bind, natToBits_mod64, dataBitsSeq, hf, pkBits]
 
 /-- `wallet.DataV5R1{IsSignatureAllowed, Seqno, WalletID, PublicKey, Extensions}` with signature auth on, no extensions -/
 theorem dataV5R1_eq_desc (v : Version) (hf : v.family = .v5r1) (seqno : Nat) (pk : List UInt8) (o : Opts) :
-    desc_wallet_DataV5R1 = (.struct (.cons "IsSignatureAllowed" .plain .bool (.cons "Seqno" .plain (.uint 32) (.cons "WalletID" .plain (.uint 32) (.cons "PublicKey" .plain (.bytes 32) (.cons "Extensions" .plain (.dictE "tlb.HashmapE[tlb.Bits256,tlb.Uint1]") .nil)))))) ∧
+    desc_wallet_DataV5R1 = (.struct (.cons "IsSignatureAllowed" .plain .bool (.cons "Seqno" .plain (.uint 32) (.cons "WalletID" .plain (.uint 32) (.cons "PublicKey" .plain (.bytes 32) (.cons "Extensions" .plain (.dictE (.bytes 32) (.uint 1)) .nil)))))) ∧
     encode env 10 desc_wallet_DataV5R1
         (Val.list [.bool true, .int seqno, .int (walletIdV5R1 o), .bytes (pkBytes pk), .nil]) Builder.empty =
       .ok { bits := dataBitsSeq v seqno pk o, refs := [] } := by
   refine ⟨rfl, ?_⟩
-  simp [desc_wallet_DataV5R1, encode, encodeFields, encodeField, Val.list, Builder.writeUint, Builder.writeBits, Builder.writeBit,
+  simp [desc_wallet_DataV5R1, encode, encodeFields, encodeField, Val.list, dictParts, keyWidth, Builder.writeUint, Builder.writeBits, Builder.writeBit,
     Builder.writeBytes, Builder.empty, cellBits, bind, Outcome.bind, natToBits_mod64, dataBitsSeq, hf, pkBits]
 
 /-- `wallet.DataHighloadV2{SubWalletId, LastCleanedTime, PublicKey, Queries}` of a fresh wallet -/
 theorem dataHighloadV2_eq_desc (v : Version) (hf : v.family = .highload) (seqno : Nat) (pk : List UInt8) (o : Opts) :
-    desc_wallet_DataHighloadV2 = (.struct (.cons "SubWalletId" .plain (.uint 32) (.cons "LastCleanedTime" .plain (.uint 64) (.cons "PublicKey" .plain (.bytes 32) (.cons "Queries" .plain (.dictE "tlb.HashmapE[tlb.Uint64,tlb.Any]") .nil))))) ∧
+    desc_wallet_DataHighloadV2 = (.struct (.cons "SubWalletId" .plain (.uint 32) (.cons "LastCleanedTime" .plain (.uint 64) (.cons "PublicKey" .plain (.bytes 32) (.cons "Queries" .plain (.dictE (.uint 64) (.prim .any)) .nil))))) ∧
     encode env 10 desc_wallet_DataHighloadV2 (Val.list [.int o.subDefault, .int 0, .bytes (pkBytes pk), .nil]) Builder.empty =
       .ok { bits := dataBitsSeq v seqno pk o, refs := [] } := by
   refine ⟨rfl, ?_⟩
-  simp [desc_wallet_DataHighloadV2, encode, encodeFields, encodeField, Val.list, Builder.writeUint, Builder.writeBits,
+  simp [desc_wallet_DataHighloadV2, encode, encodeFields, encodeField, Val.list, dictParts, keyWidth, Builder.writeUint, Builder.writeBits,
     Builder.writeBit, Builder.writeBytes, Builder.empty, cellBits, bind, Outcome.bind, natToBits_mod64, dataBitsSeq, hf, pkBits]
 
 /-- `wallet.WalletV5ID{NetworkGlobalID, Workchain, WalletVersion, SubWalletID}` -/
@@ -71,7 +71,7 @@ theorem walletV5ID_eq_desc (net wc ver sub : Nat) (b : Builder) (hb : b.bits.len
   have h2 : b.bits.length + 32 + 8 ≤ 1023 := by omega
   have h3 : b.bits.length + 32 + 8 + 8 ≤ 1023 := by omega
   have h4 : b.bits.length + 32 + 8 + 8 + 32 ≤ 1023 := by omega
-  simp [desc_wallet_WalletV5ID, encode, encodeFields, encodeField, Val.list, Builder.writeUint, Builder.writeBits,
+  simp [desc_wallet_WalletV5ID, encode, encodeFields, encodeField, Val.list, dictParts, keyWidth, Builder.writeUint, Builder.writeBits,
     cellBits, bind, Outcome.bind, natToBits_mod64, h1, h2, h3, h4, Nat.add_assoc]
 
 set_option maxRecDepth 100000 in
@@ -82,10 +82,10 @@ theorem dataV5Beta_eq_desc (v : Version) (hf : v.family = .v5beta) (seqno : Nat)
           .bytes (pkBytes pk), .nil]) Builder.empty =
       .ok { bits := dataBitsSeq v seqno pk o, refs := [] } := by
   obtain ⟨id, hd, he⟩ : ∃ id, desc_wallet_DataV5Beta = (.struct (.cons "Seqno" .plain (.uint 33) (.cons "WalletID" .plain (.named id)
-      (.cons "PublicKey" .plain (.bytes 32) (.cons "Extensions" .plain (.dictE "tlb.HashmapE[tlb.Bits256,tlb.Uint8]") .nil))))) ∧
+      (.cons "PublicKey" .plain (.bytes 32) (.cons "Extensions" .plain (.dictE (.bytes 32) (.uint 8)) .nil))))) ∧
       env id = some desc_wallet_WalletV5ID := ⟨_, rfl, rfl⟩
   rw [hd]
-  simp [encode, encodeFields, encodeField, Val.list, he, desc_wallet_WalletV5ID, Builder.writeUint, Builder.writeBits,
+  simp [encode, encodeFields, encodeField, Val.list, dictParts, keyWidth, he, desc_wallet_WalletV5ID, Builder.writeUint, Builder.writeBits,
     Builder.writeBit, Builder.writeBytes, Builder.empty, cellBits, bind, Outcome.bind, natToBits_mod64, dataBitsSeq, hf, pkBits]
 
 end Tongo.C15Tlb
